@@ -567,6 +567,15 @@ def canonicalise(tree):
         t, neg = strip_not(n)
         if not neg:
           return ast.copy_location(t, n)
+        if isinstance(t, ast.BoolOp):
+          # De Morgan: not (a and b) -> not a or not b (negations folded)
+          vals = []
+          for v in t.values:
+            nv = ast.copy_location(ast.UnaryOp(op=ast.Not(), operand=v), v)
+            vals.append(self.visit_UnaryOp(nv))
+          return ast.copy_location(ast.BoolOp(
+              op=ast.Or() if isinstance(t.op, ast.And) else ast.And(),
+              values=vals), n)
         if t is not n.operand:
           n.operand = t
       return n
